@@ -30,6 +30,9 @@ def operands(rng):
     arr = L.Symbol("T", L.DataType.REAL)
     lits = [L.LiteralInt(v) for v in (0, 1, -1, 2, -3)]
     lits += [L.LiteralFloat(v) for v in (0.0, 1.0, -1.0, 2.5, -2.5, -0.0, 1e-3)]
+    # values NEAR the folding triggers: a tolerance in is_zero/is_one/is_negative_one would fold them
+    lits += [L.LiteralFloat(v) for v in (1e-9, -1e-12, 5e-324, 1.0 + 2.0**-40, 1.0 - 2.0**-52, -1.0 - 1e-6, 1.0 + 1e-6)]
+    lits += [L.LiteralFloat(complex(1e-10, 0)), L.LiteralFloat(complex(1, 1e-9)), L.LiteralFloat(complex(0, 1e-12))]
     lits += [L.LiteralFloat(complex(0, 0)), L.LiteralFloat(complex(1, 0)), L.LiteralFloat(complex(-1, 0))]
     comp = [
         x, y, i, L.Neg(x), L.Neg(L.LiteralFloat(2.0)), L.Add(x, y), L.Sub(x, L.LiteralFloat(1.0)), L.Mul(x, y),
@@ -41,7 +44,7 @@ def operands(rng):
 
 
 def pynums():
-    return [0, 1, -1, 2, 0.0, 1.0, -1.0, 2.5, -0.0]
+    return [0, 1, -1, 2, 0.0, 1.0, -1.0, 2.5, -0.0, 1e-9, 1.0 + 1e-6, -1.0 + 1e-7]
 
 
 def kind(e):
@@ -248,7 +251,7 @@ def hop_certificates(chk, d, entries):
 
 
 def run(chk):
-    chk.rule = ("folding: all ordered pairs from a pool of 29 operands (every LExpr class, literal values 0,±1,… int/float/complex) "
+    chk.rule = ("folding: all ordered pairs from a pool of operands (every LExpr class, literal values 0,±1,… int/float/complex) "
                 "and Python numbers on either side × {+,-,*,/}; non-trivial = the real result is not the plain binary node "
                 "(a folding branch fired), keyed by (op, operand kinds). optimiser: every corpus kernel executed exactly "
                 "(Rat) with and without optimize(); non-trivial = optimiser changed the AST.")
